@@ -1,6 +1,7 @@
 import Driver.State
 import Driver.OpsCore
 import TakVerif.Impl.Evaluate
+import TakVerif.Impl.ThreatHyp
 
 /-! Driver ops for C18 (evaluation) and C19 (immediate road threats). -/
 namespace Driver
@@ -104,6 +105,7 @@ def handleEval : Handler := fun st op args =>
     | _, _ => some (st, "bad-op")
   | "threats", [ptok] =>
     some (st, withPos ptok fun p => let t := countThreats p.c p; s!"{t.wp} {t.wt} {t.bp} {t.bt}")
+  | "c19hyp", [ptok] => some (st, withPos ptok fun p => if p.threatHypB then "1" else "0")
   | "threatreal", [ptok] => some (st, withPos ptok fun p => threatReal p (onePlyRoadWin st.basis))
   | "sthreatreal", [ptok] => some (st, withPos ptok fun p => threatReal p specRoadWin)
   | "roadwin1", [ptok] =>
